@@ -8,6 +8,7 @@
 //           probe=<ok|bad|none|dead> pcalls=<ready calls caused by the probe> exc=<hex of what()|->
 //   quit
 #include "c01_service.h"
+#include <thread>
 
 static c01::farm g_farm;
 struct probe_def { std::vector<std::string> segs; std::string mode; std::string ref; bool has_ref; };
@@ -24,7 +25,32 @@ static std::string reads_str(std::vector<int> const &r)
 	std::string s; for(size_t i=0;i<r.size();i++) { if(i) s+=','; s+=std::to_string(r[i]); } return s;
 }
 
+// watchdog: a line of the protocol (a case incl. its probe, a service restart, the final shutdown) that takes longer than
+// g_hang_s seconds means the real service hangs (spinning or blocked event loop / worker: join() would wait forever).
+// The harness reports it on stderr and exits; the driver attributes it to the case that was being played.
+static std::atomic<long long> g_busy_since_ms(0);
+static int g_hang_s = 75;
+static void watchdog()
+{
+	for(;;) {
+		usleep(200000);
+		long long b=g_busy_since_ms;
+		if(b && (long long)(c01::now_s()*1000) - b > 1000LL*g_hang_s) {
+			fputs("HANG: the service stopped answering (harness watchdog): a case, its probe or the shutdown of the service did not finish\n",stderr);
+			fflush(stderr);
+			_exit(97);
+		}
+	}
+}
+struct busy_guard { busy_guard(){ g_busy_since_ms=(long long)(c01::now_s()*1000); } ~busy_guard(){ g_busy_since_ms=0; } };
+
+static std::string run_line(std::vector<std::string> const &w);
 static std::string run(std::vector<std::string> const &w)
+{
+	busy_guard g;
+	return run_line(w);
+}
+static std::string run_line(std::vector<std::string> const &w)
 {
 	using namespace c01;
 	if(w.size()>=3 && w[0]=="setprobe") {
@@ -97,8 +123,10 @@ int main(int argc,char **argv)
 	for(int i=1;i+1<argc;i+=2) {
 		if(std::string(argv[i])=="--barrier-ms") c01::g_barrier_ms=atoi(argv[i+1]);
 		if(std::string(argv[i])=="--final-ms") c01::g_final_ms=atoi(argv[i+1]);
+		if(std::string(argv[i])=="--hang-s") g_hang_s=atoi(argv[i+1]);
 	}
+	std::thread(watchdog).detach();
 	int r=vh::drive(run);
-	g_farm.stop_all();
-	return r;
+	{ busy_guard g; g_farm.stop_all(); }
+	_exit(r);
 }
